@@ -1195,6 +1195,11 @@ def call_method(I, o, name, args, kw, st, n):
                 return o if lm.is_integer(o) else mk_fn("trunc", [o])
             return o
         if name in ("conj", "conjugate"): return o.conj()
+        if name in ("max", "min") and not args and not kw and len(o.fv()) == 1 and o.eq(X.var(next(iter(o.fv())))):
+            # the scalar symbol stands for one element of a per-bin array: its extreme over all bins is another quantity (of the same sign)
+            nm_ = f"{next(iter(o.fv()))}.{name}"
+            KIND.setdefault(nm_, KIND.get(next(iter(o.fv())), "real"))
+            return X.var(nm_)
         return Opaque(f"scalar method {name}")
     if isinstance(o, ListVal):
         if name == "append":
